@@ -697,6 +697,12 @@ func areaShapeSpec(c *Ctx) {
 	}
 
 	g.repoCases(emit)
+	// the whole family "trailing skipped glyphs consumed by a nested lookup" (area_shape.go), every run
+	for i := 0; i < shpTrailingCount; i++ {
+		sc, what := shpTrailingCase(i)
+		c.Stat("obligation: trailing skipped glyphs (format)", what[:9])
+		emit(sc, "trailing skipped family")
+	}
 	for c.evals < c.N && timeouts < maxTimeouts {
 		g.wild = false
 		g.gpos = false
